@@ -174,7 +174,7 @@ def run_scenario(args) -> Dict[str, Any]:
         fair = sst["fair"] or {}
         strace = {"consts": {"N": len(sst["state"]["last_ran_ms"]), "Policy": sst["policy"] or "round_robin", "Mct": int(fair.get("max_consecutive_turns") or 1000),      # absent = unlimited in the code (10**9); 1000 stands for it in these short traces
                              "Aging": int(fair.get("aging_ms", 0) or 0), "Rotate": (sst["policy"] or "round_robin") == "round_robin",
-                             "Advances": [], "MaxNow": 0, "MaxDepth": 0, "AllowLeave": False}, "ev": sev}
+                             "Advances": [], "MaxNow": 0, "MaxDepth": 0, "AllowLeave": False, "InitStamp": 0}, "ev": sev}
     return {"tid": tidn, "ev": ev, "err": err, "sched_lines": sched_lines, "name": sc["name"], "steps": sc["steps"], "strace": strace,
             "graph_gate_lost": any(want and not got for want, got in seen_gates)}
 
